@@ -7,9 +7,9 @@
    therefore speaks about xtol > 0: when k halvings are what it takes to bring the width within
    xtol, the generated code returns the pair the model computes with k halvings.  The closure
    returned by InvCDF itself (dist.go) calls bisectBool with xtol = 0 — it terminates only by
-   float64 rounding — and is NOT tied: it needs function results, comma-ok type assertions and
-   method values, and its bracket expansion is modelled with float64 rounding of the probes
-   (Model/InvCDF.v f64_round_Z), which the exact reading does not have beyond 2^53. *)
+   float64 rounding —: the closure is tied in Tie/InvCDFGeneric.v with bisectBool opaque (special
+   cases and the bracket expansion while the probes are exact, i.e. below 2^53; Model/InvCDF.v
+   rounds the probes with f64_round_Z beyond that). *)
 From Coq Require Import ZArith NArith QArith Qround Qabs List Bool Lia Lqa.
 From MM Require Import Base.Num Base.GoSem Model.InvCDF.
 From MMGen Require Import Gen_stats_alg.
